@@ -70,6 +70,7 @@ def unfold(formulas, specfuns, fuel):
     names = {n for n, f in specfuns.items() if f.defn is not None}
     extra = []
     done = set()
+    added = set()
     frontier = list(formulas)
     for _ in range(fuel):
         new = []
@@ -78,7 +79,8 @@ def unfold(formulas, specfuns, fuel):
                 continue
             done.add(app.get_id())
             d = specfuns[app.decl().name()].defn(*app.children())
-            if d is not None:
+            if d is not None and d.get_id() not in added:
+                added.add(d.get_id())
                 new.append(d)
         if not new:
             break
@@ -87,12 +89,40 @@ def unfold(formulas, specfuns, fuel):
     return extra
 
 
-_QUICK_MS = 3000
+_QUICK_MS = 1500
+
+
+def _has_quantifier(e, memo):
+    stack = [e]
+    seen = set()
+    while stack:
+        x = stack.pop()
+        i = x.get_id()
+        if i in seen:
+            continue
+        seen.add(i)
+        if i in memo:
+            if memo[i]:
+                return True
+            continue
+        if z3.is_quantifier(x):
+            memo[e.get_id()] = True
+            return True
+        if z3.is_app(x):
+            stack.extend(x.children())
+    memo[e.get_id()] = False
+    return False
+
+
+_QMEMO = {}
 
 
 def quick_sat(pc, specfuns, fuel=1):
+    """Feasibility of a path condition, for pruning only: quantified facts are left out (weaker hypotheses can only
+    keep an infeasible path, never drop a feasible one)."""
     s = z3.Solver()
     s.set("timeout", _QUICK_MS)
+    pc = [f for f in pc if not _has_quantifier(f, _QMEMO)]
     s.add(*pc)
     if specfuns:
         s.add(*unfold(pc, specfuns, fuel))
@@ -120,46 +150,208 @@ def _run_cli(cmd, text, timeout_s):
         os.unlink(path)
 
 
-def discharge(obl, specfuns, fuel=2, timeout_ms=10000, backends=("z3py", "z3cli")):
-    """Try to prove obl.  Returns dict(status=proved|refuted|unknown, backend, ms, model?)."""
+def _mentions_heavy_seq(e, cache):
+    """Does the formula mention a sequence that is not a Seq(Int) (i.e. the event trace)?"""
+    stack = [e]
+    seen = set()
+    while stack:
+        x = stack.pop()
+        i = x.get_id()
+        if i in seen:
+            continue
+        seen.add(i)
+        if i in cache:
+            if cache[i]:
+                return True
+            continue
+        srt = x.sort()
+        if srt.kind() == z3.Z3_SEQ_SORT and not srt.basis().eq(z3.IntSort()):
+            return True
+        if z3.is_quantifier(x):
+            stack.append(x.body())
+        elif z3.is_app(x):
+            stack.extend(x.children())
+    return False
+
+
+class _Resolver:
+    """Path-specialised unfolding: If-conditions of a definition that the hypotheses decide are resolved before the
+    definition is handed to the solver (sound: hyps |= c  implies  If(c,a,b) = a under hyps)."""
+
+    def __init__(self, facts, ms=400):
+        self.s = z3.Solver()
+        self.s.set("timeout", ms)
+        self.s.add(*facts)
+        self.cache = {}
+        self.checks = 0
+
+    def decide(self, c):
+        k = c.get_id()
+        if k in self.cache:
+            return self.cache[k]
+        r = None
+        self.checks += 2
+        self.s.push()
+        self.s.add(z3.Not(c))
+        if self.s.check() == z3.unsat:
+            r = True
+        self.s.pop()
+        if r is None:
+            self.s.push()
+            self.s.add(c)
+            if self.s.check() == z3.unsat:
+                r = False
+            self.s.pop()
+        self.cache[k] = r
+        return r
+
+    def resolve(self, e, memo):
+        k = e.get_id()
+        if k in memo:
+            return memo[k]
+        out = e
+        if z3.is_app(e) and e.num_args() > 0 and not z3.is_quantifier(e):
+            if z3.is_app_of(e, z3.Z3_OP_ITE):
+                c, a, b = e.children()
+                d = self.decide(c)
+                if d is True:
+                    out = self.resolve(a, memo)
+                elif d is False:
+                    out = self.resolve(b, memo)
+                else:
+                    out = z3.If(c, self.resolve(a, memo), self.resolve(b, memo))
+            else:
+                ch = e.children()
+                nch = [self.resolve(x, memo) for x in ch]
+                if any(not x.eq(y) for x, y in zip(ch, nch)):
+                    out = e.decl()(*nch)
+        memo[k] = out
+        return out
+
+
+STRATEGIES = [
+    # name, per-check timeout (ms), drop quantified hypotheses, mbqi
+    ("qf", 2500, True, False),
+    ("ematch", 8000, False, False),
+    ("full", 10000, False, True),
+]
+
+
+def discharge(obl, specfuns, fuel=2, timeout_ms=10000, strategy=("full", 10000, False, True)):
+    """One strategy on one obligation.  Returns dict(status=proved|refuted|unknown, backend, ms, model?).
+    `refuted` is only ever reported by a strategy that keeps every hypothesis."""
     t0 = time.time()
     if obl.meta.get("trivial"):
-        return {"status": "proved", "backend": "z3-simplifier", "fuel": 0, "ms": 0}
+        return {"status": "proved", "backend": "z3-simplifier", "fuel": 0, "ms": 0, "strategy": "simplify"}
+    sname, tmo, drop_q, mbqi = strategy
     neg = z3.Not(obl.goal)
-    result = {"status": "unknown", "backend": None, "fuel": None}
-    for f in range(1, fuel + 1):
+    result = {"status": "unknown", "backend": None, "fuel": None, "strategy": sname}
+    memo = {}
+    for f in (fuel,):  # one query at full fuel: an unprovable low-fuel instance only burns its timeout
         base = list(obl.hyps) + [neg]
         extra = unfold(base, specfuns, f)
+        hyps = list(obl.hyps) + extra
+        if drop_q:
+            hyps = [h for h in hyps if not _has_quantifier(h, memo)]
         s = z3.Solver()
-        s.set("timeout", timeout_ms)
-        s.add(*base)
-        s.add(*extra)
+        s.set("timeout", tmo)
+        if not mbqi:
+            s.set("smt.mbqi", False)
+        s.add(*hyps)
+        s.add(neg)
         r = s.check()
         if r == z3.unsat:
-            result.update(status="proved", backend="z3py-%s" % z3.get_version_string(), fuel=f)
+            result.update(status="proved", backend="z3py-%s/%s" % (z3.get_version_string(), sname), fuel=f)
             break
-        if r == z3.sat:
+        if r == z3.sat and not drop_q:
             # under bounded unfolding a sat answer may be an artefact; deeper fuel may still prove it
-            result.update(status="refuted", backend="z3py", fuel=f, model=s.model())
+            result.update(status="refuted", backend="z3py/%s" % sname, fuel=f, model=s.model())
             continue
-        result.update(status="unknown", backend="z3py", fuel=f)
-        if "z3cli" in backends:
-            text = _smt2(base + extra, z3.BoolVal(True))
-            r2 = _run_cli(["/usr/bin/z3", "-T:%d" % max(1, timeout_ms // 1000)], text, timeout_ms // 1000)
-            if r2 == "unsat":
-                result.update(status="proved", backend="z3cli-4.8.12", fuel=f)
-                break
+        result.update(status="unknown", backend="z3py/%s" % sname, fuel=f)
     result["ms"] = int((time.time() - t0) * 1000)
     return result
 
 
-def discharge_all(obls, specfuns, fuel=2, timeout_ms=10000, progress=None):
-    out = []
-    for o in obls:
-        r = discharge(o, specfuns, fuel=fuel, timeout_ms=timeout_ms)
-        out.append(r)
-        if progress:
-            progress(o, r)
+def _child(conn, o, specfuns, fuel, strategy):
+    try:
+        r = discharge(o, specfuns, fuel=fuel, strategy=strategy)
+        m = r.pop("model", None)
+        if m is not None:
+            r["model_str"] = str(m)[:6000]
+    except Exception as e:  # a crash of the solver front end is "unknown", never a verdict
+        r = {"status": "unknown", "backend": "crash: %r" % (e,), "fuel": None, "ms": 0, "strategy": strategy[0]}
+    conn.send(r)
+    conn.close()
+
+
+def discharge_all(obls, specfuns, fuel=2, timeout_ms=10000, progress=None, jobs=None, strategies=None):
+    """Discharge every obligation: one fork()ed child per (obligation, strategy) -- the z3 terms are shared
+    copy-on-write -- at most `jobs` at a time, each under a hard wall-clock deadline (z3 occasionally ignores its
+    own timeout).  Strategies are tried in order until one proves the obligation."""
+    import multiprocessing as mp
+    jobs = jobs or int(os.environ.get("PYVC_JOBS", "16"))
+    strategies = strategies or STRATEGIES
+    out = [None] * len(obls)
+    pending = []
+    for i, o in enumerate(obls):
+        if o.meta.get("trivial"):
+            out[i] = discharge(o, specfuns)
+        else:
+            pending.append((i, 0))
+    ctx = mp.get_context("fork")
+    running = {}
+    spent = {}
+
+    attempts = {}
+
+    def finish(i, k, r):
+        spent[i] = spent.get(i, 0) + r.get("ms", 0)
+        attempts.setdefault(i, []).append("%s:%s:%sms:%s" % (r.get("strategy"), r["status"], r.get("ms"), r.get("backend")))
+        r["attempts"] = attempts[i]
+        prev = out[i]
+        if r["status"] == "proved" or k + 1 >= len(strategies):
+            if r["status"] == "unknown" and prev is not None and prev["status"] == "refuted":
+                r = prev
+            r["ms"] = spent[i]
+            out[i] = r
+            if progress:
+                progress(obls[i], r)
+        else:
+            if r["status"] == "refuted" or prev is None:
+                out[i] = r
+            pending.append((i, k + 1))
+
+    while pending or running:
+        while pending and len(running) < jobs:
+            i, k = pending.pop(0)
+            pc, cc = ctx.Pipe(duplex=False)
+            p = ctx.Process(target=_child, args=(cc, obls[i], specfuns, fuel, strategies[k]))
+            p.start()
+            cc.close()
+            running[(i, k)] = (p, pc, time.time(), strategies[k][1] / 1000.0 * 1.5 + 4)
+        done = []
+        for key, (p, pc, t0, dl) in running.items():
+            i, k = key
+            ms = int((time.time() - t0) * 1000)
+            if pc.poll(0):
+                try:
+                    r = pc.recv()
+                except EOFError:
+                    r = {"status": "unknown", "backend": "child died", "fuel": None, "ms": ms, "strategy": strategies[k][0]}
+                p.join()
+                done.append((key, r))
+            elif not p.is_alive():
+                done.append((key, {"status": "unknown", "backend": "child died", "fuel": None, "ms": ms, "strategy": strategies[k][0]}))
+            elif time.time() - t0 > dl:
+                p.kill()
+                p.join()
+                done.append((key, {"status": "unknown", "backend": "hard-timeout/%s" % strategies[k][0], "fuel": None, "ms": ms, "strategy": strategies[k][0]}))
+        for key, r in done:
+            running[key][1].close()
+            del running[key]
+            finish(key[0], key[1], r)
+        if not done:
+            time.sleep(0.004)
     return out
 
 
